@@ -52,6 +52,134 @@ class _Subst(ast.NodeTransformer):
     visit_AsyncFunctionDef = visit_FunctionDef
 
 
+def _walk_shallow(node: ast.AST):
+    """ast.walk that does not enter nested function / lambda / class bodies"""
+    stack = [node]
+    while stack:
+        n = stack.pop()
+        yield n
+        for c in ast.iter_child_nodes(n):
+            if isinstance(c, (ast.FunctionDef, ast.AsyncFunctionDef, ast.Lambda, ast.ClassDef)):
+                continue
+            stack.append(c)
+
+
+def _terminates(block: List[ast.stmt]) -> bool:
+    """every path through the block ends in return / raise (continue / break do not count: they leave the helper's own loops only)"""
+    if not block:
+        return False
+    last = block[-1]
+    if isinstance(last, (ast.Return, ast.Raise)):
+        return True
+    if isinstance(last, ast.If):
+        return _terminates(last.body) and _terminates(last.orelse)
+    if isinstance(last, ast.Try) and not last.finalbody:
+        return (_terminates(last.body) or (bool(last.orelse) and _terminates(last.orelse))) and all(_terminates(h.body) for h in last.handlers)
+    if isinstance(last, (ast.With, ast.AsyncWith)):
+        return _terminates(last.body)
+    return False
+
+
+def _structure_returns(block: List[ast.stmt]) -> Optional[List[ast.stmt]]:
+    """Rewrite early returns into if/else so that every ``return`` is in tail position of the block (None when that is not possible:
+    a return that is not reachable through if / try-without-finally / with nesting)."""
+    out: List[ast.stmt] = []
+    for i, st in enumerate(block):
+        rest = block[i + 1:]
+        has_ret = any(isinstance(x, ast.Return) for x in _walk_shallow(st))
+        if not has_ret:
+            out.append(st)
+            continue
+        if isinstance(st, ast.Return):
+            out.append(st)
+            return out                      # anything after it is dead
+        if isinstance(st, ast.If):
+            body_t, else_t = _terminates(st.body), _terminates(st.orelse)
+            new = copy.copy(st)
+            if body_t and else_t:
+                b, e = _structure_returns(st.body), _structure_returns(st.orelse)
+                if b is None or e is None:
+                    return None
+                new.body, new.orelse = b, e
+                out.append(new)
+                return out
+            if body_t or else_t:
+                # the terminating branch keeps its returns; everything that follows moves into the other branch
+                t_branch = st.body if body_t else st.orelse
+                o_branch = (st.orelse if body_t else st.body) + rest
+                tb, ob = _structure_returns(t_branch), _structure_returns(o_branch)
+                if tb is None or ob is None:
+                    return None
+                new.body, new.orelse = (tb, ob) if body_t else (ob or [ast.copy_location(ast.Pass(), st)], tb)
+                out.append(new)
+                return out
+            return None                     # a return in a branch that may also fall through
+        if isinstance(st, ast.Try) and not st.finalbody and not rest:
+            new = copy.copy(st)
+            b = _structure_returns(st.body)
+            hs = []
+            for h in st.handlers:
+                hb = _structure_returns(h.body)
+                if hb is None:
+                    return None
+                h2 = copy.copy(h)
+                h2.body = hb
+                hs.append(h2)
+            oe = _structure_returns(st.orelse) if st.orelse else []
+            if b is None or oe is None:
+                return None
+            # a return in the try body must not be followed by an else clause
+            if st.orelse and any(isinstance(x, ast.Return) for s2 in st.body for x in _walk_shallow(s2)):
+                return None
+            new.body, new.handlers, new.orelse = b, hs, oe
+            out.append(new)
+            return out
+        if isinstance(st, (ast.With, ast.AsyncWith)) and not rest:
+            new = copy.copy(st)
+            b = _structure_returns(st.body)
+            if b is None:
+                return None
+            new.body = b
+            out.append(new)
+            return out
+        return None
+    return out
+
+
+def _tails(block: List[ast.stmt]):
+    """(list, index) of every tail statement of a block structured by _structure_returns"""
+    if not block:
+        return
+    last = block[-1]
+    if isinstance(last, ast.If):
+        yield from _tails(last.body)
+        if last.orelse:
+            yield from _tails(last.orelse)
+        else:
+            yield (block, len(block))       # implicit fall-through of a missing else: position after the if
+    elif isinstance(last, ast.Try):
+        if last.orelse:
+            yield from _tails(last.orelse)
+        else:
+            yield from _tails(last.body)
+        for h in last.handlers:
+            yield from _tails(h.body)
+    elif isinstance(last, (ast.With, ast.AsyncWith)):
+        yield from _tails(last.body)
+    else:
+        yield (block, len(block) - 1)
+
+
+class _ReplaceNode(ast.NodeTransformer):
+    def __init__(self, old: ast.AST, new: ast.AST):
+        self.old, self.new = old, new
+
+    def visit(self, node):
+        if node is self.old:
+            return self.new
+        return super().visit(node)
+
+
 def _simple_arg(e: ast.AST) -> bool:
     if isinstance(e, (ast.Name, ast.Constant)):
         return True
@@ -94,12 +222,47 @@ def _return_in_loop(fdef) -> bool:
     return rec(fdef, False)
 
 
+def import_aliases(tree: ast.Module, modname: str, is_pkg: bool, all_modules: Set[str]) -> Tuple[Dict[str, str], Dict[str, Tuple[str, str]]]:
+    """(local name -> module it is bound to, local name -> (module, function) it is bound to) from the module's import statements."""
+    mods: Dict[str, str] = {}
+    funcs: Dict[str, Tuple[str, str]] = {}
+    pkg = modname if is_pkg else modname.rsplit(".", 1)[0]
+    for s in tree.body:
+        if isinstance(s, ast.Import):
+            for a in s.names:
+                if a.name in all_modules and a.asname:
+                    mods[a.asname] = a.name
+        elif isinstance(s, ast.ImportFrom):
+            base = s.module or ""
+            if s.level:
+                parts = pkg.split(".")
+                parts = parts[:len(parts) - (s.level - 1)] if s.level > 1 else parts
+                base = ".".join(parts + ([s.module] if s.module else []))
+            for a in s.names:
+                local = a.asname or a.name
+                full = f"{base}.{a.name}"
+                if full in all_modules:
+                    mods[local] = full
+                elif base in all_modules:
+                    funcs[local] = (base, a.name)
+    return mods, funcs
+
+
 class Inliner:
-    def __init__(self, known: Set[str]):
+    def __init__(self, known: Set[str], foreign: Optional[Dict[str, Dict[str, ast.AST]]] = None,
+                 mod_aliases: Optional[Dict[str, str]] = None, func_aliases: Optional[Dict[str, Tuple[str, str]]] = None,
+                 relpaths: Optional[Dict[str, str]] = None):
         self.known = known
         self.counter = 0
         self.log: List[str] = []
         self.failed: List[str] = []
+        self.foreign = foreign or {}           # modname -> {new top-level function name -> def}
+        self.mod_aliases = mod_aliases or {}
+        self.func_aliases = func_aliases or {}
+        self.relpaths = relpaths or {}
+        self.closures: Dict[str, ast.AST] = {}
+        self.last_structured = False
+        self.src_of: Dict[int, str] = {}       # id(helper def) -> relpath of the module it comes from (foreign helpers only)
 
     # -- helper lookup -------------------------------------------------------------------------------------------------
     def _helper_for(self, call_func: ast.AST, modname: str, clsq: Optional[str], cls_nodes: Dict[str, ast.ClassDef],
@@ -113,10 +276,23 @@ class Inliner:
                         q = f"{clsq}.{s.name}"
                         if q not in self.known:
                             return q, s, True
+        if isinstance(call_func, ast.Name) and call_func.id in self.closures:
+            return f"<closure>.{call_func.id}", self.closures[call_func.id], False
         if isinstance(call_func, ast.Name) and call_func.id in mod_funcs:
             q = f"{modname}.{call_func.id}"
             if q not in self.known:
                 return q, mod_funcs[call_func.id], False
+        # new top-level function of another module of the package, reached through an import alias
+        tgt: Optional[Tuple[str, str]] = None
+        if isinstance(call_func, ast.Attribute) and isinstance(call_func.value, ast.Name) and call_func.value.id in self.mod_aliases:
+            tgt = (self.mod_aliases[call_func.value.id], call_func.attr)
+        elif isinstance(call_func, ast.Name) and call_func.id in self.func_aliases:
+            tgt = self.func_aliases[call_func.id]
+        if tgt is not None and tgt[1] in self.foreign.get(tgt[0], {}) and tgt[0] != modname:
+            hdef = self.foreign[tgt[0]][tgt[1]]
+            # only helpers whose free names mean the same thing here: nothing module-private may be referenced
+            self.src_of[id(hdef)] = self.relpaths.get(tgt[0], "")
+            return f"{tgt[0]}.{tgt[1]}", hdef, False
         return None
 
     # -- expression form ---------------------------------------------------------------------------------------------------
@@ -144,7 +320,15 @@ class Inliner:
         if any(isinstance(n, ast.Name) and isinstance(n.ctx, ast.Store) for n in ast.walk(body[0].value)):
             pass
         expr = copy.deepcopy(body[0].value)
+        self._mark_src(hdef, [expr])
         return _Subst(mapping, {}).visit(expr)
+
+    def _mark_src(self, hdef, nodes: List[ast.AST]) -> None:
+        src = self.src_of.get(id(hdef))
+        if src:
+            for r in nodes:
+                for x in ast.walk(r):
+                    x._src = src  # type: ignore[attr-defined]
 
     # -- statement form ----------------------------------------------------------------------------------------------------
     def _stmt_form(self, hdef, is_method: bool, call: ast.Call) -> Optional[Tuple[List[ast.stmt], Optional[str]]]:
@@ -190,8 +374,10 @@ class Inliner:
                 ast.copy_location(asg, call)
                 ast.fix_missing_locations(asg)
                 pre.append(asg)
-        body = [_Subst(mapping, rename).visit(copy.deepcopy(s)) for s in _body_wo_doc(hdef)]
-        rets = [n for s in body for n in ast.walk(s) if isinstance(n, ast.Return)]
+        copies = [copy.deepcopy(s) for s in _body_wo_doc(hdef)]
+        self._mark_src(hdef, copies)
+        body = [_Subst(mapping, rename).visit(c) for c in copies]
+        rets = [n for s in body for n in _walk_shallow(s) if isinstance(n, ast.Return)]
         retvar = tag + "ret"
         need_value = any(r.value is not None for r in rets)
 
@@ -217,7 +403,18 @@ class Inliner:
                     out.append(b)
                 return out
         trailing_only = len(rets) <= 1 and (not rets or (body and body[-1] is rets[0]))
-        if trailing_only:
+        structured = None if trailing_only else _structure_returns(body)
+        if structured is not None:
+            # every return is now the last statement of its branch: ``return e`` becomes ``ret = e`` and control simply falls out
+            new_body = []
+            for s in structured:
+                r = _Ret(False).visit(s)
+                new_body.extend(r if isinstance(r, list) else [r])
+            init = ast.Assign(targets=[ast.Name(id=retvar, ctx=ast.Store())], value=ast.Constant(value=None))
+            ast.copy_location(init, call)
+            stmts = [init] + pre + new_body
+            self.last_structured = True
+        elif trailing_only:
             new_body: List[ast.stmt] = []
             for s in body:
                 r = _Ret(False).visit(s)
@@ -242,6 +439,8 @@ class Inliner:
             ast.copy_location(init, call)
             ast.fix_missing_locations(init)
             stmts = [init] + pre + [loop]
+        if structured is None:
+            self.last_structured = False
         for s in stmts:
             ast.fix_missing_locations(s)
         return stmts, retvar
@@ -264,8 +463,6 @@ class Inliner:
             for s in cd.body:
                 if isinstance(s, (ast.FunctionDef, ast.AsyncFunctionDef)) and f"{cq}.{s.name}" not in self.known:
                     newq.add(f"{cq}.{s.name}")
-        if not newq:
-            return 0
         n_inlined = 0
         for depth in range(3):
             changed = False
@@ -282,6 +479,20 @@ class Inliner:
 
     def _process_function(self, fdef, modname, clsq, cls_nodes, mod_funcs, fq: str) -> int:
         count = 0
+        nun = unroll_literal_loops(fdef)
+        if nun:
+            self.log.append(f"{fq}: {nun} loop(s) over a literal table unrolled")
+        # closures that never escape: a nested def whose name only ever appears as the callee of a direct call.  Inlining them is the
+        # canonical form the rules see, whether or not the snapshot already had them (a closure and a private method are then the same).
+        self.closures = {}
+        for st in fdef.body:
+            if isinstance(st, (ast.FunctionDef, ast.AsyncFunctionDef)) and not st.decorator_list \
+                    and not any(isinstance(x, (ast.Nonlocal, ast.Global)) for x in ast.walk(st)):
+                uses = [x for x in ast.walk(fdef) if isinstance(x, ast.Name) and x.id == st.name and isinstance(x.ctx, ast.Load)]
+                callee_uses = [c.func for c in ast.walk(fdef) if isinstance(c, ast.Call) and isinstance(c.func, ast.Name) and c.func.id == st.name]
+                inside_self = [x for x in ast.walk(st) if isinstance(x, ast.Name) and x.id == st.name]
+                if uses and len(uses) == len(callee_uses) and not inside_self:
+                    self.closures[st.name] = st
 
         def helper_of(e: ast.AST):
             inner = e.value if isinstance(e, ast.Await) else e
@@ -293,6 +504,64 @@ class Inliner:
                         return None
                     return hq, hdef, is_m, inner
             return None
+
+        def is_helper_expr(e: ast.AST) -> bool:
+            return helper_of(e) is not None
+
+        def first_eval(e: Optional[ast.AST], depth: int = 0) -> Optional[ast.AST]:
+            """the helper call that is evaluated before anything else with an effect in ``e`` (or None)"""
+            if e is None or depth > 8:
+                return None
+            if isinstance(e, (ast.Call, ast.Await)) and is_helper_expr(e):
+                inner = e.value if isinstance(e, ast.Await) else e
+                if all(_simple_arg(a) for a in inner.args) and all(k.arg and _simple_arg(k.value) for k in inner.keywords):
+                    return e
+                return None
+            if isinstance(e, ast.UnaryOp):
+                return first_eval(e.operand, depth + 1)
+            if isinstance(e, ast.BoolOp):
+                return first_eval(e.values[0], depth + 1)
+            if isinstance(e, ast.Compare):
+                return first_eval(e.left, depth + 1)
+            if isinstance(e, ast.BinOp):
+                return first_eval(e.left, depth + 1)
+            if isinstance(e, ast.IfExp):
+                return first_eval(e.test, depth + 1)
+            if isinstance(e, (ast.Attribute, ast.Subscript, ast.Starred, ast.FormattedValue, ast.Await)):
+                return first_eval(e.value, depth + 1)
+            if isinstance(e, (ast.Tuple, ast.List, ast.Set)) and e.elts:
+                return first_eval(e.elts[0], depth + 1)
+            if isinstance(e, ast.Call):
+                if not _simple_arg(e.func):
+                    return first_eval(e.func, depth + 1)
+                if e.args:
+                    return first_eval(e.args[0], depth + 1)
+                if e.keywords:
+                    return first_eval(e.keywords[0].value, depth + 1)
+            return None
+
+        def hoist(s: ast.stmt, holder: str, out: List[ast.stmt]) -> bool:
+            """``s.<holder>`` contains a helper call that is evaluated first: compute it in statement form before ``s``"""
+            nonlocal count
+            e = getattr(s, holder, None)
+            fe = first_eval(e)
+            if fe is None:
+                return False
+            h = helper_of(fe)
+            if h is None:
+                return False
+            hq, hdef, is_m, call = h
+            r = self._stmt_form(hdef, is_m, call)
+            if r is None:
+                return False
+            stmts_in, retvar = r
+            count += 1
+            self.log.append(f"{fq} <- {hq} (statement form, hoisted out of a larger expression where it is evaluated first)")
+            out.extend(stmts_in)
+            name = ast.Name(id=retvar, ctx=ast.Load())
+            ast.copy_location(name, call)
+            setattr(s, holder, _ReplaceNode(fe, name).visit(e))
+            return True
 
         def expand_block(stmts: List[ast.stmt]) -> List[ast.stmt]:
             nonlocal count
@@ -330,6 +599,9 @@ class Inliner:
                         stmts_in, retvar = r
                         count += 1
                         self.log.append(f"{fq} <- {hq} (statement form)")
+                        if isinstance(s, ast.Expr):
+                            stmts_in = [x for x in stmts_in if not (isinstance(x, ast.Assign) and isinstance(x.targets[0], ast.Name) and x.targets[0].id == retvar
+                                                                    and isinstance(x.value, ast.Constant) and x.value.value is None)]
                         out.extend(stmts_in)
                         if isinstance(s, ast.Expr):
                             continue
@@ -339,9 +611,21 @@ class Inliner:
                         out.append(s)
                         continue
                     self.failed.append(f"{fq} <- {hq}: statement form not applicable")
+                elif isinstance(s, (ast.Expr, ast.Assign, ast.AnnAssign, ast.Return)) and getattr(s, "value", None) is not None:
+                    hoist(s, "value", out)
+                elif isinstance(s, ast.If):
+                    hoist(s, "test", out)
+                elif isinstance(s, (ast.For, ast.AsyncFor)):
+                    hoist(s, "iter", out)
                 out.append(s)
             return out
         fdef.body = expand_block(fdef.body)
+        # closures whose calls were all expanded are dropped
+        for nm, cdef in list(self.closures.items()):
+            if not any(isinstance(x, ast.Name) and x.id == nm for st in fdef.body if st is not cdef for x in ast.walk(st)) and cdef in fdef.body:
+                fdef.body.remove(cdef)
+                self.log.append(f"{fq}: closure {nm} fully inlined")
+        self.closures = {}
 
         # expression form (also for property reads) anywhere in the function
         class _E(ast.NodeTransformer):
@@ -382,6 +666,8 @@ class Inliner:
         _E(self).visit(fdef)
         if count:
             _coalesce(fdef)
+            if _thread_flags(fdef):
+                self.log.append(f"{fq}: boolean result of an inlined predicate threaded into its branches")
         return count
 
 
@@ -401,6 +687,143 @@ def _blocks(node: ast.AST):
         yield c.body
         for st in c.body:
             yield from _blocks(st)
+
+
+def unroll_literal_loops(fdef) -> int:
+    """``for a, b in ((x1, y1), (x2, y2)): BODY`` with simple element expressions == BODY[a:=x1, b:=y1]; BODY[a:=x2, b:=y2].
+    Table-driven code and its spelled-out form become the same statements (the table may also be a single-definition local used only
+    as the loop's iterable)."""
+    done = 0
+    for _ in range(10):
+        changed = False
+        for block in _blocks(fdef):
+            for i, st in enumerate(block):
+                if not isinstance(st, ast.For) or st.orelse:
+                    continue
+                it = st.iter
+                table_def = None
+                if isinstance(it, ast.Name):
+                    stores = [x for x in ast.walk(fdef) if isinstance(x, ast.Name) and x.id == it.id and isinstance(x.ctx, ast.Store)]
+                    loads = [x for x in ast.walk(fdef) if isinstance(x, ast.Name) and x.id == it.id and isinstance(x.ctx, ast.Load)]
+                    cands = [b for b in block[:i] if isinstance(b, (ast.Assign, ast.AnnAssign)) and getattr(b, "value", None) is not None
+                             and isinstance(b.targets[0] if isinstance(b, ast.Assign) else b.target, ast.Name)
+                             and (b.targets[0] if isinstance(b, ast.Assign) else b.target).id == it.id]
+                    if len(stores) == 1 and len(loads) == 1 and len(cands) == 1:
+                        table_def = cands[0]
+                        it = table_def.value
+                if not isinstance(it, (ast.Tuple, ast.List)) or not it.elts or len(it.elts) > 8:
+                    continue
+                tgt = st.target
+                names = [tgt.id] if isinstance(tgt, ast.Name) else ([e.id for e in tgt.elts] if isinstance(tgt, (ast.Tuple, ast.List))
+                                                                       and all(isinstance(e, ast.Name) for e in tgt.elts) else None)
+                if names is None:
+                    continue
+                rows = []
+                for el in it.elts:
+                    vals = [el] if isinstance(tgt, ast.Name) else (list(el.elts) if isinstance(el, (ast.Tuple, ast.List)) and len(el.elts) == len(names) else None)
+                    if vals is None or not all(_simple_arg(v) for v in vals):
+                        rows = None
+                        break
+                    rows.append(vals)
+                if not rows:
+                    continue
+                # the loop variables must not be written in the body, nor read after the loop; no break/continue of this loop
+                body_nodes = [x for b in st.body for x in _walk_shallow(b)]
+                if any(isinstance(x, ast.Name) and x.id in names and isinstance(x.ctx, (ast.Store, ast.Del)) for x in body_nodes):
+                    continue
+
+                def own_jump(stmts) -> bool:
+                    for b in stmts:
+                        if isinstance(b, (ast.Break, ast.Continue)):
+                            return True
+                        if isinstance(b, (ast.For, ast.AsyncFor, ast.While, ast.FunctionDef, ast.AsyncFunctionDef, ast.ClassDef)):
+                            continue
+                        for f in ("body", "orelse", "finalbody"):
+                            if own_jump(getattr(b, f, []) or []):
+                                return True
+                        if any(own_jump(h.body) for h in getattr(b, "handlers", []) or []):
+                            return True
+                    return False
+                if own_jump(st.body):
+                    continue
+                after = [x for b in block[i + 1:] for x in ast.walk(b) if isinstance(x, ast.Name) and x.id in names and isinstance(x.ctx, ast.Load)]
+                if after:
+                    continue
+                new: List[ast.stmt] = []
+                for vals in rows:
+                    mapping = dict(zip(names, vals))
+                    for b in st.body:
+                        new.append(_Subst(mapping, {}).visit(copy.deepcopy(b)))
+                block[i:i + 1] = new
+                if table_def is not None:
+                    block.remove(table_def)
+                for x in new:
+                    ast.fix_missing_locations(x)
+                changed = True
+                done += 1
+                break
+            if changed:
+                break
+        if not changed:
+            break
+    return done
+
+
+def _thread_flags(fdef) -> int:
+    """``<structured block whose tails set _inlN_ret = True/False>; if [not] _inlN_ret: A else: B`` where the flag has no other use:
+    put A / B at the tails and drop the flag (jump threading).  The statements executed on every path are the same, in the same order."""
+    done = 0
+    for _ in range(20):
+        changed = False
+        for block in _blocks(fdef):
+            for i, st in enumerate(block):
+                if not isinstance(st, ast.If) or i == 0:
+                    continue
+                t, neg = st.test, False
+                if isinstance(t, ast.UnaryOp) and isinstance(t.op, ast.Not):
+                    t, neg = t.operand, True
+                if not (isinstance(t, ast.Name) and t.id.startswith("_inl") and t.id.endswith("_ret")):
+                    continue
+                var = t.id
+                loads = [x for x in ast.walk(fdef) if isinstance(x, ast.Name) and x.id == var and isinstance(x.ctx, ast.Load)]
+                if len(loads) != 1:
+                    continue
+                prev = block[i - 1]
+                stores = [x for x in ast.walk(fdef) if isinstance(x, ast.Name) and x.id == var and isinstance(x.ctx, ast.Store)]
+                inside = [x for x in ast.walk(prev) if isinstance(x, ast.Name) and x.id == var and isinstance(x.ctx, ast.Store)]
+                inits = [b for b in block[:i - 1] if isinstance(b, ast.Assign) and isinstance(b.targets[0], ast.Name) and b.targets[0].id == var
+                         and isinstance(b.value, ast.Constant) and b.value.value is None]
+                if len(stores) != len(inside) + len(inits) or not inside:
+                    continue
+                tails = list(_tails([prev]))
+                ok = True
+                for tb, ti in tails:
+                    if ti >= len(tb):
+                        ok = False
+                        break
+                    a = tb[ti]
+                    if not (isinstance(a, ast.Assign) and isinstance(a.targets[0], ast.Name) and a.targets[0].id == var
+                            and isinstance(a.value, ast.Constant) and (a.value.value is None or isinstance(a.value.value, bool))):
+                        ok = False
+                        break
+                if not ok or len(tails) != len(inside):
+                    continue
+                for tb, ti in tails:
+                    val = bool(tb[ti].value.value)
+                    taken = st.body if (val != neg) else st.orelse
+                    repl = [copy.deepcopy(x) for x in taken] or [ast.copy_location(ast.Pass(), tb[ti])]
+                    tb[ti:ti + 1] = repl
+                for b in inits:
+                    block.remove(b)
+                block.remove(st)
+                changed = True
+                done += 1
+                break
+            if changed:
+                break
+        if not changed:
+            break
+    return done
 
 
 def _coalesce(fdef) -> None:
@@ -442,8 +865,15 @@ def _coalesce(fdef) -> None:
             return
 
 
-def apply(tree: ast.Module, modname: str, known: Set[str]) -> Tuple[int, List[str], List[str]]:
-    inl = Inliner(known)
+def new_top_level_functions(tree: ast.Module, modname: str, known: Set[str]) -> Dict[str, ast.AST]:
+    return {s.name: s for s in tree.body if isinstance(s, (ast.FunctionDef, ast.AsyncFunctionDef)) and f"{modname}.{s.name}" not in known
+            and not s.decorator_list}
+
+
+def apply(tree: ast.Module, modname: str, known: Set[str], foreign=None, is_pkg: bool = False, all_modules: Optional[Set[str]] = None,
+          relpaths: Optional[Dict[str, str]] = None) -> Tuple[int, List[str], List[str]]:
+    ma, fa = import_aliases(tree, modname, is_pkg, all_modules or set()) if foreign else ({}, {})
+    inl = Inliner(known, foreign, ma, fa, relpaths)
     n = inl.process_module(tree, modname)
     if n:
         ast.fix_missing_locations(tree)
